@@ -17,5 +17,5 @@ def run(ctx):
         out += res
     out.append(E.normaliser_rule(ctx.syn, "C06", rule="C06.R6", crate=ctx.mir("default")["ts_rs"]))
     from rules import templates as T
-    out.append(T.generics_rule(ctx.syn, "C06", rule="C06.R8"))
+    out.append(T.generics_rule(ctx.syn, "C06", rule="C06.R8", crate=ctx.mir("default")["ts_rs_macros"]))
     return out
